@@ -60,7 +60,63 @@ func C20(ctx *core.Ctx, r *core.Report) {
 	c20UseMutatesMeta(ctx, r, reachUse, inScope)
 	c20LazyCache(ctx, r)
 	c20ConstructorsFresh(ctx, r)
+	c20SharedContainers(ctx, r, reachAll, inScope)
 }
+
+// c20SharedContainers: a package-level variable handed by address to code
+// outside the repository (a method of sync.Pool, sync.Map, bytes.Buffer,
+// a map/slice helper …) is a shared mutable container that every goroutine
+// using the library meets. Locks, Once and atomics are what makes sharing safe
+// and are exempt; everything else is an obligation.
+func c20SharedContainers(ctx *core.Ctx, r *core.Report, reach *core.Reach, inScope func(*ssa.Function) bool) {
+	n, sites := 0, 0
+	seen := map[string]bool{}
+	for f := range reach.Set {
+		if !inScope(f) {
+			continue
+		}
+		for _, c := range core.CallSites(f) {
+			cal := core.StaticCallee(c)
+			if cal != nil && core.InRepo(core.FnPkgPath(cal)) {
+				continue // followed by the taint analysis of global-write
+			}
+			for _, a := range c.Common().Args {
+				root, _ := addrRoot(a)
+				g, ok := root.(*ssa.Global)
+				if !ok || g.Pkg == nil || !core.InRepo(g.Pkg.Pkg.Path()) {
+					continue
+				}
+				if _, isPtr := a.Type().Underlying().(*types.Pointer); !isPtr {
+					continue
+				}
+				sites++
+				tn := core.TypeName(core.Deref(g.Type()))
+				switch tn {
+				case "sync.Mutex", "sync.RWMutex", "sync.Once", "sync.WaitGroup":
+					continue
+				case "*log.Logger", "log.Logger":
+					continue // serialises its writes; safe for concurrent use by its documentation
+				}
+				if strings.HasPrefix(tn, "atomic.") || isAtomicCall(c) {
+					continue
+				}
+				key := g.Pkg.Pkg.Name() + "." + g.Name()
+				if seen[key] {
+					continue
+				}
+				seen[key] = true
+				n++
+				reason, triaged := c20ContainerTriage[key]
+				r.Ob("shared-container", key, ctx.Pos(c.Pos()), triaged,
+					"package-level "+tn+" is handed by address to "+core.CalleeName(c)+": a mutable container shared by every goroutine that uses the library (what is taken from it may be handed to two of them, or recycled while still in use)"+map[bool]string{true: "; triaged: " + reason, false: ""}[triaged])
+			}
+		}
+	}
+	r.Count("global_address_call_sites", sites)
+	r.Count("shared_containers", n)
+}
+
+var c20ContainerTriage = map[string]string{}
 
 // addrRoot walks an address expression back to its base object.
 // viaLoad reports whether a pointer load was crossed (the store goes through a
